@@ -118,7 +118,22 @@ func c20R6(h H) {
 
 // c20R7: "not excepted" is decided by the request as it arrived.  The log handler keeps a copy of the URL taken
 // before the next handler ran (rewrite changes r.URL in place); the except test must read that copy.
+// c20R7: decided from the table of the log handler (E10, loggerTable); the dataflow formulation (c20R7Patterns) is
+// kept for reference and no longer registered.
 func c20R7(h H) {
+	r := h.r
+	r.Rule("R7", "the log handler as a decision table (E10): Logger.ServeHTTP, evaluated for one and two rules (scope matching or not), two entries per rule (excepted or not), a next handler that rewrites r.URL.Path in place and reports 200 or an unwritten 404, with and without a custom error function: the except test of every entry is given the path as the client sent it, and every non-excepted entry of the governing rule gets exactly one line, every excepted one none", 2)
+	t := loggerTable(h)
+	var pos token.Pos
+	if fn := h.p.Func(logPkg, "Logger.ServeHTTP"); fn != nil {
+		pos = fn.Pos()
+	}
+	n := sprintf("%d cases evaluated", t.n)
+	r.Check(t.path == "" && t.other == "", "R7", "(log.Logger).ServeHTTP/except-tests-received-path", pos, "whether a request is excepted from logging is decided by the path the client sent", n, t.path, t.other)
+	r.Check(t.lines == "" && t.other == "", "R7", "(log.Logger).ServeHTTP/one-line-per-entry", pos, "every configured log of the governing rule that is not excepted gets exactly one line per request", n, t.lines, t.other)
+}
+
+func c20R7Patterns(h H) {
 	r := h.r
 	r.Rule("R7", "except is tested on the path as received: every ShouldLog call of the log handler is given the Path field of a local URL copy that is stored, on every path, before the Next.ServeHTTP invoke (not r.URL.Path as left behind by rewrite or other handlers)", 1)
 	fn := h.fn("R7", logPkg, "Logger.ServeHTTP")
